@@ -392,6 +392,10 @@ def veq(a, b):
         return z3.BoolVal(True)
     if a is None and b is None:
         return z3.BoolVal(True)
+    if hasattr(a, 'pv_veq'):
+        return a.pv_veq(b)
+    if hasattr(b, 'pv_veq'):
+        return b.pv_veq(a)
     if isinstance(a, str) or isinstance(b, str):
         return z3.BoolVal(isinstance(a, str) and isinstance(b, str) and a == b)
     if isinstance(a, (tuple, list)) and isinstance(b, (tuple, list)):
